@@ -169,6 +169,14 @@ class RemoteProxy(BaseProxy):
         error = receiver_task.exception()
         if error is None:
             return
+        if not isinstance(error, ConnectionError):
+            # Whatever made the receiver give up, for the waiting
+            # requests it means that the connection is gone.
+            connection_error = ConnectionAbortedError(
+                f"No longer receiving from the simulator: {error!r}"
+            )
+            connection_error.__cause__ = error
+            error = connection_error
         for future in self._channel._outgoing_request_futures.values():
             if not future.done():
                 future.set_exception(error)
